@@ -83,6 +83,8 @@ def fnOfJson (j : Json) : Except String Fn := do
   let nat (k : String) : Except String Nat := j.getObjValAs? Nat k
   let val (k : String) : Except String V := do vOfJson #[] (← j.getObjVal? k)
   match name with
+  | "fold_sum" => return .foldSum
+  | "fold_count" => return .foldCount
   | "t" => return .texpr (← (← arr (← j.getObjVal? "ops")).mapM topOfJson)
   | "cls" =>
     match (← j.getObjValAs? String "c") with
@@ -148,12 +150,21 @@ partial def specOfJson (j : Json) : Except String GSpec := do
     return GSpec.fn f
   else if k == "limit" then
     let oid ← j.getObjValAs? Nat "oid"
-    let n ← j.getObjValAs? Nat "n"
+    -- `Limit(n)` compares the int count with n (`count > n`): a negative n behaves as 0, a float n as
+    -- its floor — the bound the model carries
+    let n ← (match (← j.getObjVal? "n") with
+      | .num q => pure (Int.fdiv q.mantissa ((10 : Int) ^ q.exponent)).toNat
+      | x => throw s!"bad Limit bound {x.compress}")
     let sub ← specOfJson (← j.getObjVal? "sub")
     return GSpec.limit oid n sub
   else if k == "nested" then
+    let gid ← j.getObjValAs? Nat "gid"
     let g ← specOfJson (← j.getObjVal? "g")
-    return GSpec.nested g
+    return GSpec.nested gid g
+  else if k == "group_obj" then
+    -- the spec object of this evaluation IS the Group object `gid` that also occurs nested in
+    -- another spec of the history: Group(g) itself, not wrapped again
+    specOfJson (← j.getObjVal? "g")
   else throw s!"bad spec kind {k}"
 
 def obsOfJson (j : Json) : Except String EvalObs := do
@@ -179,23 +190,32 @@ def specTag : GSpec → String
   | .agg _ .clsCount => "clsCount" | .agg _ .unbound => "unbound"
   | .fn _ => "f"
   | .limit _ _ sub => "Limit(" ++ specTag sub ++ ")"
-  | .nested g => "Group(" ++ specTag g ++ ")"
+  | .nested _ g => "Group(" ++ specTag g ++ ")"
 
 /-- Max / Min over lists or tuples: Python compares them lexicographically, the model's
-    `pyLt` covers ints and strings only -/
+    `pyLt` covers numbers and strings only -/
 def cmpUnsupported : GSpec → List V → Bool
   | .agg _ .max, its | .agg _ .min, its => its.any isSeqV
   | .dict _ _ _ sub, its => cmpUnsupported sub its
   | .limit _ _ sub, its => cmpUnsupported sub its
-  | .nested g, its => its.any (fun x => cmpUnsupported g ((iterOf x).getD []))
+  | .nested _ g, its => its.any (fun x => cmpUnsupported g ((iterOf x).getD []))
   | _, _ => false
 
-/-- tuple / float bucket keys: hashable in Python, outside the modelled key domain -/
+/-- hashable in Python: no list / dict inside -/
+def pyHashable : V → Bool
+  | .list _ | .dict _ => false
+  | .tuple xs => pyHashableL xs
+  | _ => true
+where pyHashableL : List V → Bool
+  | [] => true
+  | x :: xs => pyHashable x && pyHashableL xs
+
+/-- bucket keys Python can hash that are outside the modelled key domain: tuples inside tuples -/
 def keyUnsupported : GSpec → List V → Bool
   | .dict _ _ key sub, its =>
-    its.any (fun x => match key.val x with | .tuple _ | .float _ => true | _ => false) || keyUnsupported sub its
+    its.any (fun x => pyHashable (key.val x) && !(hashable (key.val x))) || keyUnsupported sub its
   | .limit _ _ sub, its => keyUnsupported sub its
-  | .nested g, its => its.any (fun x => keyUnsupported g ((iterOf x).getD []))
+  | .nested _ g, its => its.any (fun x => keyUnsupported g ((iterOf x).getD []))
   | _, _ => false
 
 /-- which classes of the generator a spec uses (for the histogram) -/
@@ -209,8 +229,13 @@ def specFeat : GSpec → String
   | .agg _ (.sum f) | .agg _ (.flatten f) | .agg _ (.merge f) => fnFeat f
   | .agg _ .clsLast | .agg _ .clsCount | .agg _ .unbound => "C"
   | .limit _ _ sub => specFeat sub
-  | .nested g => specFeat g
+  | .nested _ g => specFeat g
   | _ => ""
+
+def hasFloat : V → Bool
+  | .float _ => true
+  | .int i => i ≥ 9007199254740992 || i ≤ -9007199254740992
+  | _ => false
 
 def run (j : Json) : Except String Json := do
   let specs ← (← arr (← j.getObjVal? "specs")).mapM specOfJson
@@ -221,44 +246,64 @@ def run (j : Json) : Except String Json := do
     | .arr #[a, b] => do return ((← a.getNat?), (← b.getNat?))
     | _ => throw s!"bad eval {e.compress}")
   let implObs ← (← arr (← j.getObjVal? "impl")).mapM obsOfJson
+  -- deviation classes the harness asks to be ACCEPTED for now (their `known:` line is not yet in
+  -- KNOWN_FINDINGS.txt); [] once they are: then they are reported as known findings
+  let accept ← (← arr (← j.getObjVal? "accept")).mapM (fun x => x.getStr?)
   -- the (spec, items) pairs the history evaluates
   let pairs := evals.filterMap (fun e => match specs[e.1]?, targets[e.2]? with
     | some g, some its => some (g, its)
     | _, _ => none)
   if pairs.length != evals.length then throw "eval index out of range"
-  if pairs.any (fun p => !(noSkipBelow false p.1 p.2)) then
-    return Json.mkObj [("skip", true), ("why", "SKIP-producing bare function under a key level")]
+  if implObs.length != evals.length then throw "one observation per evaluation expected"
   if pairs.any (fun p => keyUnsupported p.1 p.2) then
-    return Json.mkObj [("skip", true), ("why", "tuple used as a bucket key")]
+    return Json.mkObj [("skip", true), ("why", "a tuple inside a tuple used as a bucket key")]
   if pairs.any (fun p => cmpUnsupported p.1 p.2) then
     return Json.mkObj [("skip", true), ("why", "Max/Min over sequences")]
   let modelObs := observeHistory specs targets evals
   let agree := modelObs == implObs
-  let holds := checkC16 specs targets evals implObs
+  -- per evaluation: (spec, items), implementation, model
+  let rows := (pairs.zip implObs).zip modelObs
+  -- the deviation class of a failing evaluation — only when the implementation does there exactly
+  -- what the MODEL of the current code does (any other deviation has no class)
+  let classOf (r : ((GSpec × List V) × EvalObs) × EvalObs) : String :=
+    if checkEval r.1.1.1 r.1.1.2 r.1.2 then "" else
+    if !(r.1.2 == r.2) then "?" else
+    match r.1.2.res with
+    | .ok v => let c := devClass r.1.1.1 r.1.1.2 v; if c == "" then "?" else c
+    | .err _ =>
+      -- a collision of a bucket key with id(spec dict) can also end in a KeyError / TypeError
+      if !(slotApart r.1.1.1 r.1.1.2) then "tree_key_collision" else "?"
+  let classes := (rows.map classOf).filter (fun c => c != "")
+  let pending := classes.filter (fun c => accept.contains c)
+  let open_ := classes.filter (fun c => !(accept.contains c))
+  let holds := open_.isEmpty
   let modelHolds := checkC16 specs targets evals modelObs
   let wf := pairs.all (fun p => wfRun p.1 p.2)
-  let h1 := pairs.all (fun p => stopFree false p.1 p.2)
   let ef := pairs.all (fun p => eventFree p.1 p.2)
   let h2 := pairs.all (fun p => keysApart p.1 p.2)
   let cov := pairs.all (fun p => !(wfRun p.1 p.2) || covered p.1 p.2)
   -- the exact form of what the code computes (c16_exact), evaluated on the implementation
   let exact := (pairs.zip implObs).all (fun po =>
-    !(wfRun po.1.1 po.1.2 && slotApart po.1.1 po.1.2) || po.2.res == .ok (implTop po.1.1 po.1.2))
-  let shape :=
-    if !h2 then "tree_key_collision"
-    else if pairs.any (fun p => f9Shape p.1 p.2) then "first_under_varying_key"
-    else ""
+    !(wfRun po.1.1 po.1.2 && slotApart po.1.1 po.1.2 && noSkipBelow false po.1.1 po.1.2) ||
+      po.2.res == .ok (implTop po.1.1 po.1.2))
+  -- the class of the FIRST failing evaluation ("" when it has none: then the failure is new)
+  let shape := match open_ with
+    | c :: _ => if c == "?" then "" else c
+    | [] => ""
   let first := match modelObs with
     | ⟨.ok _, _, _⟩ :: _ => "ok"
     | ⟨.err c, _, _⟩ :: _ => s!"err-{c}"
     | [] => "no-run"
   let spec0 := specs.head?.getD default
   let feat := String.join ((specs.map specFeat).map id)
+  let anyFloat := targets.any (fun t => t.any hasFloat)
   let featTag := (if feat.contains 'T' then ":tarith" else "") ++ (if feat.contains 'C' then ":clsobj" else "") ++
-    (if specs.length > 1 then ":hist" else "")
+    (if specs.length > 1 then ":hist" else "") ++ (if anyFloat then ":float" else "") ++
+    (if wf then "" else ":nonwf") ++ (if pending.isEmpty then "" else ":pending-" ++ (pending.headD ""))
   return Json.mkObj [("agree", agree), ("holds", holds), ("model_holds", modelHolds),
-    ("facts_wf", genWF), ("wf", wf), ("h1", h1), ("event_free", ef), ("h2", h2), ("covered", cov),
-    ("exact", exact), ("known_shape", shape),
+    ("facts_wf", genWF), ("wf", wf), ("event_free", ef), ("h2", h2), ("covered", cov),
+    ("exact", exact), ("known_shape", shape), ("pending_known", Json.arr (pending.map Json.str).toArray),
+    ("classes", Json.arr (classes.map Json.str).toArray),
     ("model", Json.arr (modelObs.map obsToJson).toArray),
     ("expected", Json.arr (pairs.map (fun p => vToJson (valOfTop p.1 p.2))).toArray),
     ("branch", s!"{specTag spec0}:{first}{if ef then "" else ":stop"}{if h2 then "" else ":collide"}{featTag}")]
